@@ -2,7 +2,12 @@
   C12 - Program meaning is independent of layout: what the lexer model guarantees.
   (i) LF versus CRLF line ends cannot be observed by anything after CRLF normalisation;
   (ii) blanks and comments never reach the parser: the token list handed to the parser is a function
-       of the kept lexemes only.
+       of the kept lexemes only;
+  (iii) positions never influence what is lexed (`loop_positions_irrelevant`), and a space, a tab, a complete block
+       comment or a line comment up to its line break inserted AT ANY LEXEME BOUNDARY of any input (= wherever the lexer
+       loop stands) changes no token type and no token value of the rest - in particular not the reading of a following
+       `-` (`blank_before_a_lexeme_changes_no_token`, `block_comment_before_a_lexeme_changes_no_token`,
+       `line_comment_before_a_line_break_changes_no_token`, `leading_blank_changes_no_token`).
   The parser-level part (blank and comment-only lines at existing line breaks) is decided by the
   correspondence and the re-layout oracle of the check (DESIGN.md, C12).
 -/
@@ -79,5 +84,97 @@ theorem tokens_from_kept_lexemes (a b : Bytes) (la lb : List Lexeme) (p : Nat ×
     (hk : la.filter (fun l => !(l.ty == TT_SPACE || l.ty == TT_COMMENT)) = lb.filter (fun l => !(l.ty == TT_SPACE || l.ty == TT_COMMENT))) :
     tokenize a = tokenize b := by
   simp only [tokenize, ha, hb, hk]
+
+/-! ### blanks between lexemes -/
+
+/-- what the parser gets from a lexeme, positions aside -/
+def keptL (l : Lexeme) : Bool := !(l.ty == TT_SPACE || l.ty == TT_COMMENT)
+def tv (ls : List Lexeme) : List (Nat × Bytes) := (ls.filter keptL).map (fun l => (l.ty, l.val))
+def resTV : Res (List Lexeme × (Nat × Nat)) → Res (List (Nat × Bytes))
+  | .ok (ls, _) => .ok (tv ls)
+  | .err => .err
+  | .diverge => .diverge
+
+theorem tv_append (a b : List Lexeme) : tv (a ++ b) = tv a ++ tv b := by simp [tv]
+
+theorem step_space (last : Nat) (s : Bytes) : step last (32 :: s) = .tok TT_SPACE [32] s := by
+  simp [step, scanBool, scanNumber, spanDigits, isDigitB, isAlphaB, scanPunct, punctB, stripPrefix?, TT_SPACE]
+
+theorem step_tab (last : Nat) (s : Bytes) : step last (9 :: s) = .tok TT_SPACE [9] s := by
+  simp [step, scanBool, scanNumber, spanDigits, isDigitB, isAlphaB, scanPunct, punctB, stripPrefix?, TT_SPACE]
+
+/-- **Positions never influence what is lexed**: from the same remaining input and the same last kept type, two runs of the
+    lexer loop that differ in the position counters (and in the positions stamped on the lexemes so far) yield the same kept
+    (type, value) sequence - or both fail. -/
+theorem loop_positions_irrelevant : ∀ (fuel last : Nat) (pos pos' : Nat × Nat) (s : Bytes) (acc acc' : List Lexeme),
+    tv acc.reverse = tv acc'.reverse → resTV (loop fuel last pos s acc) = resTV (loop fuel last pos' s acc') := by
+  intro fuel
+  induction fuel with
+  | zero =>
+    intro last pos pos' s acc acc' h
+    cases s with
+    | nil => simp [loop, resTV, h]
+    | cons c t => simp [loop, resTV]
+  | succ n ih =>
+    intro last pos pos' s acc acc' h
+    cases s with
+    | nil => simp [loop, resTV, h]
+    | cons c t =>
+      simp only [loop]
+      cases hstep : step last (c :: t) with
+      | err => simp [resTV]
+      | tok ty val rest =>
+        simp only
+        apply ih
+        simp only [List.reverse_cons, tv_append, h]
+        congr 1
+        simp only [tv, List.filter_cons, List.filter_nil, keptL]
+        by_cases hk : (!(ty == TT_SPACE || ty == TT_COMMENT)) = true <;> simp [hk]
+
+/-- **A blank in front of a lexeme changes no token.**  Wherever the lexer loop stands - i.e. at every lexeme boundary of every
+    input - a space or a tab inserted there is a lexeme of its own that is dropped, leaves the "last kept type" alone (so the
+    reading of a following `-` is unaffected) and shifts only positions: the kept (type, value) sequence of the rest is the same. -/
+theorem blank_before_a_lexeme_changes_no_token (fuel last : Nat) (pos : Nat × Nat) (s : Bytes) (acc : List Lexeme) (b : UInt8)
+    (hb : b = 32 ∨ b = 9) :
+    resTV (loop (fuel + 1) last pos (b :: s) acc) = resTV (loop fuel last pos s acc) := by
+  have hstep : step last (b :: s) = .tok TT_SPACE [b] s := by
+    rcases hb with rfl | rfl
+    · exact step_space last s
+    · exact step_tab last s
+  simp only [loop, hstep]
+  apply loop_positions_irrelevant
+  simp only [List.reverse_cons, tv_append]
+  simp [tv, keptL]
+
+/-- **A comment in front of a lexeme changes no token**: a complete block comment `/* body */`, or a line comment up to (not
+    including) its line break, at any lexeme boundary is dropped, leaves the "last kept type" alone and shifts only positions. -/
+theorem block_comment_before_a_lexeme_changes_no_token (fuel last : Nat) (pos : Nat × Nat) (body b rest : Bytes) (acc : List Lexeme)
+    (h : scanBlockBody body = some (b, rest)) :
+    resTV (loop (fuel + 1) last pos (47 :: 42 :: body) acc) = resTV (loop fuel last pos rest acc) := by
+  have hstep : step last (47 :: 42 :: body) = .tok TT_COMMENT b rest := by
+    simp [step, h]
+  simp only [loop, hstep]
+  apply loop_positions_irrelevant
+  simp only [List.reverse_cons, tv_append]
+  simp [tv, keptL]
+
+theorem line_comment_before_a_line_break_changes_no_token (fuel last : Nat) (pos : Nat × Nat) (body : Bytes) (acc : List Lexeme) :
+    resTV (loop (fuel + 1) last pos (47 :: 47 :: body) acc) = resTV (loop fuel last pos (scanLine body).2 acc) := by
+  have hstep : step last (47 :: 47 :: body) = .tok TT_COMMENT (scanLine body).1 (scanLine body).2 := by
+    simp [step]
+  simp only [loop, hstep]
+  apply loop_positions_irrelevant
+  simp only [List.reverse_cons, tv_append]
+  simp [tv, keptL]
+
+/-- the same at the start of a file: `tokenize` of a source with a leading blank has the types and values of the source without -/
+theorem leading_blank_changes_no_token (src : Bytes) (b : UInt8) (hb : b = 32 ∨ b = 9) :
+    resTV (tokenizeTrace (b :: src)) = resTV (tokenizeTrace src) := by
+  have hn : normCRLF (b :: src) = b :: normCRLF src := by
+    rcases hb with rfl | rfl
+    · rw [normCRLF]; intro rest h; exact absurd h (by decide)
+    · rw [normCRLF]; intro rest h; exact absurd h (by decide)
+  simp only [tokenizeTrace, hn, List.length_cons]
+  exact blank_before_a_lexeme_changes_no_token _ 0 (1, 1) _ [] b hb
 
 end Tsh.C12
